@@ -34,6 +34,8 @@ func alphabet(types, pids []string, lists []string, nodeIDs []string) []string {
 	for _, n := range nodeIDs {
 		a = append(a, "rmnode "+n)
 	}
+	// the object registered under the id is registered under it again: nothing may happen to it
+	a = append(a, "regnodesame "+nodeIDs[0], "regnodesame "+nodeIDs[1])
 	for _, t := range types {
 		a = append(a, "send "+t)
 	}
@@ -47,14 +49,14 @@ var harness = &seqmc.Harness{
 			return []seqmc.Config{
 				{Name: "2 types x 3 pipeline ids x 4 node ids", Depth: 8,
 					Alphabet: alphabet([]string{"t1", "t2"}, []string{"p1", "p2", "p3"}, []string{"n2,n3", "n1,n2,n3", "n2,n4", "n1,n1,n2,n3"}, []string{"n1", "n2", "n3", "n4"})},
-				{Name: "failing Close on n2,n3", Depth: 8,
+				{Name: "failing Close on n2,n3; n1 a decorator with a Close of its own, n3 a NodeUnwrapper around the Closer", Depth: 8,
 					Alphabet: alphabet([]string{"t1"}, []string{"p1", "p2"}, []string{"n2,n3", "n1,n2,n3"}, []string{"n1", "n2", "n3"})},
 			}
 		}
 		return []seqmc.Config{
 			{Name: "2 types x 2 pipeline ids x 4 node ids", Depth: 7,
 				Alphabet: alphabet([]string{"t1", "t2"}, []string{"p1", "p2"}, []string{"n2,n3", "n1,n2,n3", "n2,n4", "n1,n1,n2,n3"}, []string{"n1", "n2", "n3", "n4"})},
-			{Name: "failing Close on n2,n3", Depth: 7,
+			{Name: "failing Close on n2,n3; n1 a decorator with a Close of its own, n3 a NodeUnwrapper around the Closer", Depth: 7,
 				Alphabet: alphabet([]string{"t1"}, []string{"p1", "p2"}, []string{"n2,n3", "n1,n2,n3"}, []string{"n1", "n2", "n3"})},
 		}
 	},
@@ -62,6 +64,7 @@ var harness = &seqmc.Harness{
 		r := hn.NewReg(hn.StdKinds())
 		if cfg == 1 {
 			r.CloseErrIDs = map[string]bool{"n2": true, "n3": true}
+			r.WrapIDs = map[string]string{"n1": "cw", "n3": "w"}
 		}
 		return &hn.RegInstance{R: r, Types: []string{"t1", "t2"}}
 	},
